@@ -43,6 +43,10 @@ type Spec struct {
 	ClientNetwork  string     `json:"clientNetwork,omitempty"` // "", "ip", "ip4", "ip6": address family of resolved names
 	ClientMTU      int        `json:"clientMTU,omitempty"`     // MTU of the outbound client (default 1500)
 
+	// ListenWildcard: "" (listen on 127.0.0.1), "0.0.0.0" or "[::]": the UDP listener is bound to the wildcard
+	// address, so clients can reach the relay at several local addresses (ServerAddr and RelayAddrs).
+	ListenWildcard string `json:"listenWildcard,omitempty"`
+
 	// API enables the management API on a loopback TCP port (Stats reads it).
 	API bool `json:"api,omitempty"`
 
@@ -57,6 +61,8 @@ type Spec struct {
 	ServerAddr netip.AddrPort `json:"-"`
 	HopAddr    netip.AddrPort `json:"-"`
 	APIAddr    netip.AddrPort `json:"-"`
+	// RelayAddrs: the client-facing addresses of the relay (first = ServerAddr); more than one with ListenWildcard.
+	RelayAddrs []netip.AddrPort `json:"-"`
 }
 
 func isSS2022(p string) bool { return strings.HasPrefix(p, "2022-") }
@@ -68,7 +74,11 @@ type jmap = map[string]any
 
 // ToJSON renders the configuration document. dir receives the uPSK store files.
 func (sp *Spec) ToJSON(dir string) ([]byte, error) {
-	lis := jmap{"network": "udp", "address": sp.ServerAddr.String(), "batchMode": sp.BatchMode}
+	listen := sp.ServerAddr.String()
+	if sp.ListenWildcard != "" {
+		listen = fmt.Sprintf("%s:%d", sp.ListenWildcard, sp.ServerAddr.Port())
+	}
+	lis := jmap{"network": "udp", "address": listen, "batchMode": sp.BatchMode}
 	if sp.NATTimeout != "" {
 		lis["natTimeout"] = sp.NATTimeout
 	}
@@ -226,6 +236,10 @@ func startOnce(sp *Spec, dir string) (*Service, error) {
 		return nil, err
 	}
 	sp.ServerAddr = netip.AddrPortFrom(netip.MustParseAddr("127.0.0.1"), p)
+	sp.RelayAddrs = []netip.AddrPort{sp.ServerAddr}
+	if sp.ListenWildcard != "" {
+		sp.RelayAddrs = append(sp.RelayAddrs, netip.AddrPortFrom(netip.MustParseAddr("127.0.0.2"), p), netip.AddrPortFrom(netip.MustParseAddr("127.0.0.3"), p))
+	}
 	if sp.Chain {
 		hp, err := FreePort(netip.MustParseAddr("127.0.0.1"), sp.ClientProto == "socks5")
 		if err != nil {
